@@ -87,21 +87,24 @@ def _record(item):
     return case, {"points": P.tolist(), "detector": det, "t1": t1, "t2": t2, "error": val if out != "returned" else None}
 
 
-def _smape_gate(pt, t1):
-    """endpoint-line SMAPE of the slice, computed independently (math.fsum); None when within noise of t1."""
+def _smape_gate(pt, t1, wide=False):
+    """endpoint-line SMAPE of the slice, computed independently (math.fsum); None when within noise of t1.
+    wide: abscissae far from the origin - the line is evaluated as y0 + m (x - x0) (stable), and the library's own
+    rounding of `m x + b` grows with the offset, hence the wider noise band around t1."""
     import math
     x, y = pt[:, 0], pt[:, 1]
     m = (y[0] - y[-1]) / (x[0] - x[-1])
-    h = x * m + (y[0] - m * x[0])
+    h = (x - x[0]) * m + y[0] if wide else x * m + (y[0] - m * x[0])
     v = math.fsum(2.0 * np.abs(h - y) / (np.abs(y) + np.abs(h) + 1e-16)) / len(pt)
-    if numeric.close(v, t1, rel=1e-9, ab=1e-15):
+    if numeric.close(v, t1, rel=1e-3, ab=1e-9) if wide else numeric.close(v, t1, rel=1e-9, ab=1e-15):
         return None
     return bool(v >= t1)
 
 
 def _record_long(item):
     """long curves: sparse tables over the slices the decomposition visits; the gate is the SMAPE definition."""
-    cid, seed, n, det, t1, t2 = item
+    cid, seed, n, det, t1, t2 = item[:6]
+    xoff = float(item[6]) if len(item) > 6 else 0.0
     import random
     rng = random.Random(seed)
     x = np.arange(1, n + 1, dtype=float)
@@ -113,7 +116,7 @@ def _record_long(item):
         y = 1000.0 / np.sqrt(x)
     else:
         y = 50.0 + 40.0 * np.exp(-x / (n / 6.0)) + np.array([0.01 * rng.random() for _ in range(n)])
-    P = np.column_stack([x, y])
+    P = np.column_stack([x + xoff, y])        # xoff: the same curve far to the right (abscissae stay exactly representable)
     mod = _mod(det)
     out, val, counts = monitor.call(mod.multi_knee, (P, t1, t2), budget=monitor.quad(n, 200), wall=600, per={"multi_knee": 8 * n + 64})
     case = {"id": cid, "n": n, "t2": t2, "outcome": out, "pops": counts.get("multi_knee", 0), "exempt_interior": det == "menger",
@@ -124,7 +127,7 @@ def _record_long(item):
         l, r = todo.pop()
         if r - l <= t2:
             continue
-        g = _smape_gate(P[l:r], t1)
+        g = _smape_gate(P[l:r], t1, wide=xoff != 0.0)
         if g is None:
             tab.append([l, r, -2, True])
             continue
@@ -137,7 +140,7 @@ def _record_long(item):
         if k >= 0:
             todo += [(l, l + k + 1), (l + k + 1, r)]
     case["tab"] = tab
-    return case, {"long": [cid, seed, n, det, t1, t2], "detector": det, "t1": t1, "t2": t2, "error": val if out != "returned" else None}
+    return case, {"long": [cid, seed, n, det, t1, t2] + ([xoff] if xoff else []), "detector": det, "t1": t1, "t2": t2, "error": val if out != "returned" else None}
 
 
 def _harvest_t1(P, rng):
@@ -227,6 +230,11 @@ def run(ctx):
     for k, n in enumerate([2051, 2049, 4100] if ctx.quick else [2051, 2049, 4100, 3000, 9001, 5000]):
         for det in ("curvature", "dfdt", "menger", "kneedle"):
             longs.append(("L%d-%s" % (k, det), ctx.seed * 31 + k, n, det, ctx.rng.choice([0.001, 0.0005, 0.01]), 6))
+    # the same families translated by 2^40 in x (spans far below 1e-9 of the abscissae): every quantity of the property is
+    # built from x differences, so nothing changes; a relative comparison of abscissae sees "vertical" ranges
+    for k, n in enumerate([300, 700] if ctx.quick else [300, 700, 1500, 2500]):
+        for det in ("curvature", "menger", "dfdt"):
+            longs.append(("X%d-%s" % (k, det), ctx.seed * 37 + k, n, det, ctx.rng.choice([0.001, 0.01, 0.05]), 6, 2.0 ** 40))
     rec += par.pmap(_record_long, longs, chunksize=1)
     cases = [c for c, _ in rec]
     meta = {c["id"]: m for c, m in rec}
